@@ -195,7 +195,12 @@ def _verify_output(text, n, clauses, header_on, varnames_on, case, what, path=No
         raise Violation("{}: clause #{} written as {} but the formula has {}".format(
             what, i, s.clauses[i], clauses[i]))
     ncomments = 0
-    for ln in text.split('\n'):
+    lines = text.split('\n')
+    if lines[-1] == '':
+        lines.pop()
+    for ln in lines:
+        if ln.strip() == '':
+            raise Violation("{}: blank line in the output (neither comment, problem line nor clause)".format(what))
         if ln[:1] == 'c':
             ncomments += 1
             if not (ln.rstrip('\r') == 'c' or ln.startswith('c ')):
